@@ -22,7 +22,9 @@ RULE = ("the full decision table skipped x rate {0, 1/4, 1/2, float(0.1), 1, 3/2
         "over ratio x draw with scripted random, and over histories of 2-3 S3 cassettes with a size-band calculator living in "
         "one process (created one after the other / interleaved / one saving in between; same or other bucket; a twin with "
         "other content in the same size bands), each drawing from the generator it constructed itself: every decision "
-        "follows the rule on the tapped draw and cassettes with the same history decide the same; seeded real-Random histories run twice and as content/outcome-varied twins, "
+        "follows the rule on the tapped draw, the calculator is given the size the recording has in storage (reference cassette "
+        "without calculator; also for payloads that compress to a few dozen bytes, limits between encoded and stored size), and "
+        "cassettes with the same history decide the same; seeded real-Random histories run twice and as content/outcome-varied twins, "
         "for an ordinary seed and for every kind of value Random accepts (0, 0.0, '', b'', False, True, negative, 2**40, 2**64+1, "
         "text, bytes; two classes with different fractional rates), the decisions also compared with the documented rule applied "
         "to the stream of random.Random(seed) itself; the S3 cassettes are fed directly or THROUGH a real TapeRecorder whose "
@@ -355,7 +357,9 @@ MANIFEST = dict(
          "Tie: the full decision table (2x6x3x2x3x3 policy combinations x boundary draws, scripted random so that draw == rate "
          "is hit exactly) run on the real TapeRecorder in histories of three, cassette-call kinds and recorder fields compared "
          "with the model; the real S3TapeCassette._should_sample against the model rule, single decisions with a scripted draw "
-         "and histories of several cassettes in one process with their own generators (tapped draws). Direct predicate: harness-side "
+         "and histories of several cassettes in one process with their own generators (tapped draws); the size the calculator is "
+         "given is compared with the byte length of what a reference cassette without calculator stores for the same recording "
+         "(incl. highly compressible payloads whose encoded and stored sizes lie in different bands). Direct predicate: harness-side "
          "re-statement of the policy incl. draws consumed; seeded histories twice and as content/outcome-varied twins, over ordinary "
          "and edge seeds (0 and the other falsy values, negative, huge, text, bytes), and against the rule applied to "
          "random.Random(seed) itself. The S3 cassettes are fed directly and through a real TapeRecorder around returning / "
